@@ -2025,6 +2025,7 @@ func (m *Machine) breakpoint(added S, removed S) {
 func (m *Machine) processQueue() Result {
 	// empty queue
 	if m.queueLen.Load() == 0 || m.disposing.Load() {
+		verifPoint(m, "pq:empty")
 		return Canceled
 	}
 
@@ -2045,6 +2046,7 @@ func (m *Machine) processQueue() Result {
 	}
 
 	var ret []Result
+	verifPoint(m, "pq:casOk")
 
 	// execute the queue
 	m.queueRunning.Store(false)
@@ -2071,6 +2073,7 @@ func (m *Machine) processQueue() Result {
 			m.queueTick += 1
 		}
 		m.queueMx.Unlock()
+		verifPoint(m, "pq:shifted")
 
 		// support for context cancelation
 		if mut.ctx != nil && mut.ctx.Err() != nil {
